@@ -121,6 +121,18 @@ def run(chk, tier):
                                       {"call_site": "to_array-partial-mapping", "values": vals, "common": common, "mapping": {str(k): v for k, v in part.items()}})
                     except Exception:  # noqa  (anything else is outside what this property says)
                         pass
+    # an index without entries (a constant column): the dtype of its dense output is fitted to the common value alone
+    for common in sorted(set(los + his)):
+        for shape in ((3,), (2, 2), (0,)):
+            idx = iindex({}, common, shape)
+            tid += 1
+            try:
+                name, exc = idx.to_array().dtype.name, False
+            except Exception as e:  # noqa
+                name, exc = type(e).__name__, True
+            events.append({"tid": tid, "mx": zbig(max(common, 0)), "mn": zbig(min(common, 0)), "dtype": name, "exc": exc})
+            raw[tid] = (max(common, 0), min(common, 0), name)
+            callers[tid] = "to_array() of an index of shape %s without entries, common %s" % (shape, common)
     wd = core.workdir("c19")
     try:
         classes = [1, 255, 256, 65535, 65536, 2 ** 32 - 1, 2 ** 32, 2 ** 63 - 1]
